@@ -28,6 +28,32 @@ def flat(i, j):
     return lin_add(lin_mul(i, NY), j)
 
 
+def decode_fmt_template(b):
+    """The template of a lowered format_args! (core::fmt::Arguments, see library/core/src/fmt/mod.rs): -> [('lit', text) | ('ph',)] or None"""
+    out, i = [], 0
+    try:
+        while True:
+            n = b[i]
+            i += 1
+            if n == 0:
+                return out if i == len(b) else None
+            if n < 0x80:
+                out.append(("lit", b[i:i + n].decode("utf-8")))
+                i += n
+            elif n == 0x80:
+                ln = b[i] | (b[i + 1] << 8)
+                i += 2
+                out.append(("lit", b[i:i + ln].decode("utf-8")))
+                i += ln
+            elif n >= 0xC0:
+                i += (4 if n & 1 else 0) + (2 if n & 2 else 0) + (2 if n & 4 else 0) + (2 if n & 8 else 0)
+                out.append(("ph",))
+            else:
+                return None
+    except (IndexError, UnicodeDecodeError):
+        return None
+
+
 def run(rep, pdb, tier):
     # ---- flat index: every access to Mesh2D::vars is a*ny + b with a < nx, b < ny (raw index operators excluded, as the property says)
     st = container_stride(pdb, "mesh2d::Mesh2D")
@@ -526,6 +552,40 @@ def run(rep, pdb, tier):
             unfiltered = replaces and tok(p_, i) and tok(s_, i2) and toklist(p_) and toklist(s_) and p_.value[2][2][1] == s_.value[2][2][1] and ri_[2] == ("len", p_.value[2][2][1])
             okr = iscoord and isvar and slot and unfiltered and rv is not None and rv[1:4] == (num(0), NV, False)
         rep.add("io-agreement", rule, bool(okw and okr), w["body"], "writer record = coordinate + nvars values: %s; reader stride nvars+1 with matching field order: %s" % (okw, okr), where=loc(w["body"]))
+        # every number the writer prints is delimited: the reader tokenises with split_whitespace()
+        rule_s = ("every placeholder of the writer's format strings is separated from the next printed value by white space in the literal text (the same side - after or before - "
+                  "in every write!): the reader splits on white space, so a column format without a blank fuses two numbers as soon as one fills its width")
+        writes = sorted([n for n in walk(w["body"]) if n.get("k") == "MethodCall" and n.get("m") in ("write", "writeln") and not any(a.get("m") for a in ancestors(n))], key=_pos)
+        tmpls, unknown = [], 0
+        for n in writes:
+            lits = [c.get("v") for c in walk(n) if c.get("k") == "Lit" and isinstance(c.get("v"), str)]
+            bs = [v for v in lits if v.startswith("b:")]
+            ss = [v for v in lits if v.startswith('"')]
+            if bs:
+                toks = decode_fmt_template(bytes.fromhex(bs[0][2:]))
+                if toks is None:
+                    unknown += 1
+                else:
+                    tmpls.append((n, toks + ([("lit", "\n")] if n.get("m") == "writeln" and not (toks and toks[-1] == ("lit", "\n")) else [])))
+            elif ss:
+                pass       # no placeholder: literal text only
+            else:
+                unknown += 1
+        bad_w, styles = [], set()
+        for n, toks in tmpls:
+            phs = [i for i, t in enumerate(toks) if t[0] == "ph"]
+            if not phs:
+                continue
+            ws = lambda t: t[0] == "lit" and any(ch.isspace() for ch in t[1])
+            inner = all(any(ws(t) for t in toks[a + 1:b]) for a, b in zip(phs, phs[1:]))
+            after, before = any(ws(t) for t in toks[phs[-1] + 1:]), any(ws(t) for t in toks[:phs[0]])
+            if not inner or not (after or before):
+                bad_w.append(n)
+            else:
+                styles.add("after" if after else "before")
+        oks = bool(tmpls) and not bad_w and not unknown and len(styles) <= 1
+        rep.add("io-separated", rule_s, oks, bad_w[0] if bad_w else w["body"], "write!/writeln! calls: %d, with placeholders: %d, not delimited: %d, template not decoded: %d, styles: %s" % (
+            len(writes), len([1 for _, t in tmpls if any(x[0] == "ph" for x in t)]), len(bad_w), unknown, sorted(styles)), where=loc(bad_w[0]) if bad_w else loc(w["body"]))
         # the writer starts from an empty file: a longer earlier output must not survive behind a shorter new one
         creates = [n for n in walk(w["body"]) if n.get("k") == "Call" and strip(n["f"]).get("k") == "Def" and str(n["f"].get("fn", "")).endswith("File::create")]
         opens = [n for n in walk(w["body"]) if n.get("k") == "MethodCall" and n.get("name") == "open" and "OpenOptions" in str(n.get("fn") or n.get("impl") or "")]
